@@ -73,6 +73,12 @@ class C07(conncheck.ConnCheck):
         # time-outs must end the iteration by themselves: past the depth bound the server stays silent (not EOF)
         out.append({'name': 'close-timeout', 'server': ['eof', 'text', 'ping', 'close-1000', 'silence'], 'handshake': ['hs-ok'], 'app': ['close'],
                     'depth': 3, 'max_dev': 1, 'connect': {'close_timeout': 10}, 'timers': 'absolute', 'drop': (), 'silent_tail': True})
+        out.append({'name': 'close-timeout-trickle', 'server': ['eof', 'text', 'close-1000', 'silence'], 'handshake': ['hs-ok'], 'app': ['close'],
+                    'depth': 2, 'max_dev': 1, 'connect': {'close_timeout': 10}, 'timers': 'absolute', 'drop': (), 'silent_tail': True,
+                    'trickle_tail': True, 'max_waits': 60})
+        out.append({'name': 'ping-timeout-trickle', 'server': ['eof', 'text', 'pong', 'silence'], 'handshake': ['hs-ok'], 'app': ['send_text'],
+                    'depth': 2, 'max_dev': 1, 'connect': {'ping_timeout': 7, 'ping_rate': 0}, 'timers': 'absolute', 'drop': (),
+                    'silent_tail': 'always', 'trickle_tail': True, 'max_waits': 60})
         out.append({'name': 'close-timeout-repeated-close', 'server': ['eof', 'text', 'close-1000', 'silence'], 'handshake': ['hs-ok'], 'app': ['close'],
                     'depth': 2, 'max_dev': 1, 'connect': {'close_timeout': 10}, 'timers': 'absolute', 'drop': (), 'silent_tail': True,
                     'sticky': True, 'max_waits': 60})
